@@ -130,6 +130,8 @@ def materialise(case):
     for j, f in enumerate(feats):
         if rid.random() < 0.4:
             f["fid"] = "feat%04d" % j            # identifiers as annotation pipelines assign them
+        if f["parts"] is not None and rid.random() < 0.12:
+            f["parts"] = [[p[0], p[1], 0 if p[2] is None else p[2]] + list(p[3:]) for p in f["parts"]]     # strand 0: "stranded, strand unknown" (GFF3 '?')
     rec = {"id": "r%d" % case["i"], "name": "nm", "seq": seq, "features": feats, "letters": letters,
            "annotations": {"topology": "circular", "molecule_type": "DNA", "tags": ["x"]}, "dbxrefs": ["db:1"]}
     mode = rng.choice(["single", "additive", "identity", "inverse", "mixed"])
@@ -183,6 +185,16 @@ def execute(mat, ctx):
     for ops in mat["opseqs"]:
         ctx.count("evaluations")
         rec = gen.make_record(mat["rec"])
+        h = (n * 5 + len(mat["rec"]["features"]) + len(ops)) % 7
+        if h < 3:
+            # identifiers emptied after the record was made (clean FASTA headers, anonymous records): they are what is carried over
+            if h == 0:
+                rec.description = ""
+            elif h == 1:
+                rec.id, rec.name = "", ""
+            else:
+                rec.id, rec.description = None, ""
+            ctx.count("records_with_emptied_identifiers")
         before = snapshot_for_rotation(rec)
         cur = rec
         net = 0
